@@ -20,7 +20,7 @@ RULE = ("a case is (hash algorithm, secret p as text or bytes - empty, Unicode, 
         "dumps/loads in every format so the same challenges keep their outcome, and a plaintext written by hand into "
         "a document is hashed on load; non-trivial = non-empty p with >= 3 near misses judged; distinct = distinct "
         "case content")
-REQUIRED = ("digest_values_with_other_salt_length", "plaintext_in_included_file_hashed", "same_field_reassignments", "env_bound_unset_variable", "reset_default_checks", "bulk_list_salt_checks", "digests_recomputed", "fresh_salt_checks", "challenge_accepts_p", "challenge_rejects_q", "leak_scans_memory",
+REQUIRED = ("printed_forms_parsed_back", "byte_secrets_that_are_not_utf8", "digest_values_with_other_salt_length", "plaintext_in_included_file_hashed", "same_field_reassignments", "env_bound_unset_variable", "reset_default_checks", "bulk_list_salt_checks", "digests_recomputed", "fresh_salt_checks", "challenge_accepts_p", "challenge_rejects_q", "leak_scans_memory",
             "leak_scans_documents", "roundtrips_digest_unchanged", "plaintext_in_document_hashed", "alg:md5", "alg:sha1",
             "alg:sha224", "alg:sha256", "alg:sha384", "alg:sha512")
 ASSUMPTIONS = ["hashlib is the reference implementation of the six algorithms", "documents are produced/decoded with the "
@@ -31,7 +31,7 @@ ALGS = {"md5": 16, "sha1": 20, "sha224": 28, "sha256": 32, "sha384": 48, "sha512
 def generate(rng, ctx):
     alg = rng.choice(list(ALGS))
     tok = token(rng)
-    kind = weighted(rng, [(5, "token"), (1, "empty"), (2, "unicode"), (1, "long"), (1, "short"), (2, "shaped"), (2, "compat")])
+    kind = weighted(rng, [(5, "token"), (1, "empty"), (2, "unicode"), (1, "long"), (1, "short"), (2, "shaped"), (2, "compat"), (1.5, "rawbytes")])
     if kind == "empty":
         p = ""
     elif kind == "unicode":
@@ -47,14 +47,22 @@ def generate(rng, ctx):
     elif kind == "compat":
         # not in NFC/NFKC form: full-width letters, ligature, superscript, combining accent
         p = rng.choice(["\uff50\uff41\uff53\uff53", "\ufb01le", "x\u00b2", "e\u0301", "\u212b", "\u00e9"]) + rng.choice(["", tok])
+    elif kind == "rawbytes":
+        p = tok  # made a byte string that is not UTF-8 below
     else:
         p = tok
     as_bytes = rng.random() < 0.3
+    if kind == "rawbytes":
+        raw = rng.choice([b"pa\xffss\xfe", b"\x80", b"\xc3(", b"\xed\xa0\x80"]) + tok.encode() + rng.choice([b"", b"\xff"])
+        return {"alg": alg, "p": raw, "tok": tok, "place": rng.choice(["root", "nested", "list-of-challenge", "default-digest", "assigned-digest"]),
+                "salt_len": rng.choice([None, None, 1, -1, 8, "double", "hexlike3", "hexlike48"]),
+                "fmts": rng.sample(trees.FORMATS, rng.choice([2, 3, 5])), "upper": rng.random() < 0.3,
+                "env": rng.choice([None, None, "field-named", "schema-prefix"]), "reassign_route": "attr"}
     return {"alg": alg, "p": p.encode() if as_bytes else p, "tok": tok if tok in p else None,
             "place": rng.choice(["root", "nested", "list-item", "list-of-challenge", "default-plain", "default-digest",
                                  "assigned-digest"]),
             # digest values given directly (imported hashes) may carry a salt of any length
-            "salt_len": rng.choice([None, None, 1, -1, 8, "double"]),
+            "salt_len": rng.choice([None, None, 1, -1, 8, "double", "hexlike3", "hexlike48"]),
             "fmts": rng.sample(trees.FORMATS, rng.choice([2, 3, 5])), "upper": rng.random() < 0.3,
             # the field may be bound to an environment variable that is NOT set (must behave as if unbound)
             "env": rng.choice([None, None, "field-named", "field-auto", "schema-prefix"]),
@@ -91,6 +99,11 @@ def near_misses(p, digest):
                 out.append(q.decode())
             except UnicodeDecodeError:
                 pass
+    try:
+        pb.decode()
+    except UnicodeDecodeError:
+        # a byte string that is not UTF-8 has no text form: its surrogate-escaped spelling is another (unassignable) secret
+        out.append(pb.decode("utf-8", "surrogateescape"))
     return out
 
 
@@ -99,6 +112,8 @@ def run(case, ctx, res):
     alg, p, tok, place = case["alg"], case["p"], case["tok"], case["place"]
     pb = p.encode() if isinstance(p, str) else p
     res.count("alg:" + alg)
+    if not _decodable(pb):
+        res.count("byte_secrets_that_are_not_utf8")
     algname = alg.upper() if case["upper"] else alg
     feat = "%s:%s" % (place, alg)
     envmode = case.get("env")
@@ -121,8 +136,12 @@ def run(case, ctx, res):
         if sl is None:
             given = cc.DigestValue.create(p, cc.ChallengeField.ALGORITHMS[alg])
         else:
-            n = {1: 1, -1: ALGS[alg] - 1, 8: ALGS[alg] + 8, "double": 2 * ALGS[alg]}[sl]
-            salt = bytes((7 * i + len(pb)) % 256 for i in range(n))
+            if sl in ("hexlike3", "hexlike48"):
+                # salts whose base64 text consists of hexadecimal digits only and needs no padding
+                salt = base64.b64decode("c0de" if sl == "hexlike3" else "deadbeefcafef00d" * 4)
+            else:
+                n = {1: 1, -1: ALGS[alg] - 1, 8: ALGS[alg] + 8, "double": 2 * ALGS[alg]}[sl]
+                salt = bytes((7 * i + len(pb)) % 256 for i in range(n))
             given = cc.DigestValue(salt, hashlib.new(alg, salt + pb).digest(), cc.ChallengeField.ALGORITHMS[alg])
             res.count("digest_values_with_other_salt_length")
     if place == "default-digest":
@@ -249,6 +268,17 @@ def run(case, ctx, res):
                 res.viol("M-digest", "salt-reused:list-" + how, "%s: equal secrets in one list operation share a salt (%d items, %d salts)" % (
                     how, len(mine), len(set(mine))))
                 return
+    # the printed form salt:digest parses back to the same pair
+    res.count("printed_forms_parsed_back")
+    try:
+        back = cc.DigestValue.parse(str(v1), v1.algorithm)
+    except Exception as exc:
+        res.viol("M-digest", "printed-form-does-not-parse:" + feat, "DigestValue.parse(str(v)) raised %r for %r" % (exc, str(v1)[:60]))
+        return
+    if bytes(back.salt) != bytes(v1.salt) or bytes(back.digest) != bytes(v1.digest):
+        res.viol("M-digest", "printed-form-changes:" + feat, "DigestValue.parse(str(v)) gives salt %s / digest %s for salt %s / digest %s (text %r)" % (
+            bytes(back.salt).hex()[:16], bytes(back.digest).hex()[:16], bytes(v1.salt).hex()[:16], bytes(v1.digest).hex()[:16], str(v1)[:40]))
+        return
     # challenges
     for candidate in ([p, pb] + ([pb.decode()] if _decodable(pb) else [])):
         res.count("challenge_accepts_p")
